@@ -179,6 +179,9 @@ func genCase(r *core.Rand) *kase {
 	if r.Chance(1, 8) {
 		k.mode = 1
 	}
+	if r.Chance(1, 3) {
+		k.lb = 1 + r.Intn(2)
+	}
 	// ---- connection
 	k.remote = remoteAddr(r)
 	if sp, err := parsePrefixes(k.srvT); err == nil && len(sp) > 0 && r.Chance(2, 5) {
@@ -269,11 +272,11 @@ func (p *prop) Generate(rng *core.Rand, tier string, emit func(string)) {
 	}
 	// a malformed stream: both sides must answer bad-op
 	for _, l := range []string{
-		"", "req", "nope 1 2 3", "req nil nil 0 . 000 - 0 - . . 0 0 0",
-		"req nil nil 0 . 000 - 0 - . . 0", "req nil nil 3 . 000 - 0 - . . 0 0 0", "req nil nil 0 . 00 - 0 - . . 0 0 0",
-		"req nil nil 0 . 000 zz 0 - . . 0 0 0", "req nil nil 0 . 000 - 4 - . . 0 0 0", "req 10.0.0.0/8 nil 0 nil 000 - 0 - . . 0 0 0",
-		"req x,y nil 0 . 000 - 0 - . . 0 0 0", "req nil nil 0 . 000 - 0 - 41 . 0 0 0", "req nil nil 0 . 000 - 0 - 41:42:43 . 0 0 0",
-		"req nil nil 0 . 000 - 0 - . . 3 0 0", "req nil nil 0 . 000 - 0 - . . 1 3 0", "req nil nil 0 . 000 - 0 - . . 2 2 0", "req nil nil 0 . 000 - 0 - . . 0 0 2", "req nil nil 0 . 000 - 0 - . . 0 0",
+		"", "req", "nope 1 2 3", "req nil nil 0 . 000 - 0 - . . 0 0 0 0",
+		"req nil nil 0 . 000 - 0 - . . 0 0", "req nil nil 3 . 000 - 0 - . . 0 0 0 0", "req nil nil 0 . 00 - 0 - . . 0 0 0 0",
+		"req nil nil 0 . 000 zz 0 - . . 0 0 0 0", "req nil nil 0 . 000 - 4 - . . 0 0 0 0", "req 10.0.0.0/8 nil 0 nil 000 - 0 - . . 0 0 0 0",
+		"req x,y nil 0 . 000 - 0 - . . 0 0 0 0", "req nil nil 0 . 000 - 0 - 41 . 0 0 0 0", "req nil nil 0 . 000 - 0 - 41:42:43 . 0 0 0 0",
+		"req nil nil 0 . 000 - 0 - . . 3 0 0 0", "req nil nil 0 . 000 - 0 - . . 1 3 0 0", "req nil nil 0 . 000 - 0 - . . 2 2 0 0", "req nil nil 0 . 000 - 0 - . . 0 0 2 0", "req nil nil 0 . 000 - 0 - . . 0 0 0 3", "req nil nil 0 . 000 - 0 - . . 0 0 0",
 	} {
 		emit(l)
 	}
